@@ -12,7 +12,7 @@
 void Hole_Umgebungsvariable(ddpstring *ret, ddpstring *Name) {
 	*ret = DDP_EMPTY_STRING;
 
-	const char *env = getenv(Name->str);
+	const char *env = getenv(DDP_STRING_CSTR(Name));
 	if (env) {
 		ret->cap = strlen(env) + 1;
 		ret->str = DDP_ALLOCATE(char, ret->cap);
@@ -23,8 +23,8 @@ void Hole_Umgebungsvariable(ddpstring *ret, ddpstring *Name) {
 
 void Setze_Umgebungsvariable(ddpstring *Name, ddpstring *Wert) {
 #ifdef DDPOS_WINDOWS
-	_putenv_s(Name->str, Wert->str);
+	_putenv_s(DDP_STRING_CSTR(Name), DDP_STRING_CSTR(Wert));
 #else
-	setenv(Name->str, Wert->str, 1);
+	setenv(DDP_STRING_CSTR(Name), DDP_STRING_CSTR(Wert), 1);
 #endif // DDPOS_WINDOWS
 }
